@@ -108,6 +108,12 @@ def account(run, name, out, init=None):
     run.cov.setdefault("configs", []).append({"name": name, "states": info["distinct"], "transitions": len(g.edges), "tours": out["tours"],
                                               "matched": st.get("matched", 0), "diverged": st.get("diverged", 0),
                                               "tlc_wall_s": round(info["wall"], 1), "tlc_verdict": info["violated"] or "ok"})
+    # which labels of the specification the lock-step replays of this check have taken (label coverage; tools/labelcov.py unions them)
+    labs = run.cov.setdefault("labels_replayed", {})
+    spec_of = name.split("/")[0] if "/" in name else "Mu"
+    cur = set(labs.get(spec_of, []))
+    cur.update(o[0] for o in res.get("ords", []) if o and o[0] not in ("*",))
+    labs[spec_of] = sorted(cur)
     if res["mismatch"]:
         run.note("DIVERGENCE in %s (spec/code; not a violation by itself): %s" % (name, res["mismatch"]))
         run.cov["conformant"] = False
